@@ -28,6 +28,12 @@ def build_enum(r, name, n, mask, generics=None, kinds=None):
     for v in spec.variants:
         if v.kind == "tuple" and len(v.fields) == 1 and v.fields[0].ty in ("u8", "i32", "bool", "String") and r.random() < 0.3:
             v.default_with = "noise_default_with"     # consumed by EnumString only; EnumIter must still use Default::default()
+    dis = [v for v in spec.variants if v.disabled]
+    if dis and r.random() < 0.3:
+        r.choice(dis).default = True      # EnumString's catch-all marker on a disabled variant: the variant stays disabled
+    en = [v for v in spec.variants if not v.disabled and v.kind != "unit" and len(v.fields) == 1]
+    if en and not any(v.default for v in spec.variants) and r.random() < 0.15:
+        r.choice(en).default = True       # ... and on an enabled one it does not change what the iterator yields
     return spec
 
 
